@@ -30,7 +30,11 @@ static void reset(int d, int m, int s, int use_static)
 	store = malloc(len ? len : 1);
 	memset(store, 0xA5, len);
 	mq = malloc(sizeof(*mq));
-	if (use_static) {
+	if (use_static && m == 12) {
+		/* macro arguments spelled as unparenthesised expressions */
+		messageq_t q = MESSAGEQ_VAR_INIT(store, (size_t)d * 12 + s, 8 + 4);
+		memcpy(mq, &q, sizeof(q));
+	} else if (use_static) {
 		messageq_t q = MESSAGEQ_VAR_INIT(store, len, m);
 		memcpy(mq, &q, sizeof(q));
 	} else {
@@ -152,7 +156,7 @@ static void gen(long seed, int nrandom, int nops, int both)
 		reset(bigd[i], 65535, i % 2 ? 65534 : 0, i % 2);
 		systematic();
 	}
-	static const int sizes[] = { 1, 3, 4, 7, 24, 1000, 4096 };   /* 32 x 4096 > 64 KiB: offsets beyond 16 bits */
+	static const int sizes[] = { 1, 3, 4, 7, 12, 24, 1000, 4096 };   /* 32 x 4096 > 64 KiB: offsets beyond 16 bits */
 	drv_srand(seed);
 	/* long histories (several hundred claims) on depths that do not divide 256 */
 	static const int oddd[] = { 3, 5, 6, 7, 12, 31 };
@@ -166,8 +170,14 @@ static void gen(long seed, int nrandom, int nops, int both)
 			if (k % 50 == 0) do_empty();
 		}
 	}
+	/* more than 65536 successful claims on a depth that is not a power of two (a 16-bit claim counter would wrap) */
+	for (int i = 0; i < (both ? 3 : 1); i++) {
+		reset(oddd[i], 1, 0, 0);
+		for (long k = 0; k < 66000; k++) { do_claim(); do_send(first_claimed(0)); do_receive(); do_release(); }
+		for (int k = 0; k <= depth; k++) do_claim();
+	}
 	for (int d = 1; d <= 32; d++)
-		for (int si = 0; si < 7; si++)
+		for (int si = 0; si < 8; si++)
 			for (int sl = 0; sl < 3; sl++) {
 				int m = sizes[si];
 				int s = sl == 0 ? 0 : sl == 1 ? (m > 1 ? 1 : 0) : m - 1;
